@@ -221,7 +221,10 @@ TrimAsciiWsEnd(t) == IF Len(t) >= 1 /\ IsAsciiWs(t[Len(t)]) THEN TrimAsciiWsEnd(
 LineCommentForms(t) ==
   LET tr == TrimAsciiWsEnd(t)
       p == IF Len(tr) >= 3 /\ tr[3] = 47 THEN 3 ELSE 2            \* length of the `//` or `///` opener
-  IN {tr} \cup (IF Len(tr) > p /\ ~IsAsciiWs(tr[p + 1]) THEN {SubSeq(tr, 1, p) \o <<SPACE>> \o SubSeq(tr, p + 1, Len(tr))} ELSE {})
+      body == SubSeq(tr, p + 1, Len(tr))
+      \* a separator line (ten or more equal characters, no letter or digit: //----------, ///==========) is left as it is
+      isSep == Len(body) >= 10 /\ ~IsAlnum(body[1]) /\ body[1] < 128 /\ \A k \in 1..Len(body) : body[k] = body[1]
+  IN {tr} \cup (IF Len(tr) > p /\ ~IsAsciiWs(tr[p + 1]) /\ ~isSep THEN {SubSeq(tr, 1, p) \o <<SPACE>> \o body} ELSE {})
 
 \* MLValueEq is supplied by the module that knows MLString (Session); here only the hook
 TokenEqualModuloNorm(kind, a, b, fms, MLEq(_, _)) ==
